@@ -22,6 +22,7 @@ recording = False
 _jitter = None  # (random.Random, max_seconds)
 _parks = {}  # point name -> dict(arrived=Event, release=Event, left=int)
 _names = {}
+_gate = None  # Gate: the hook-granular scheduler used by vp/rt/regsched.py
 
 
 def thread_tag():
@@ -72,8 +73,58 @@ def release(name):
         p["release"].set()
 
 
+class Gate:
+    """Hook-granular scheduler: a thread whose tag is in `names_by_tag` stops at every listed
+    point, tells the controller where it is, and runs on only when the controller says so -
+    so exactly one controlled thread runs between two gate points."""
+
+    def __init__(self, names_by_tag):
+        import queue
+
+        self.names_by_tag = names_by_tag
+        self.arrivals = queue.Queue()
+        self.events = {}
+        self.open = False
+
+    def arrive(self, tag, name, fields):
+        ev = threading.Event()
+        self.events[tag] = ev
+        self.arrivals.put((tag, name, fields))
+        if not self.open:
+            ev.wait(20.0)
+
+    def go(self, tag):
+        ev = self.events.pop(tag, None)
+        if ev is not None:
+            ev.set()
+
+    def open_all(self):
+        self.open = True
+        for ev in list(self.events.values()):
+            ev.set()
+
+
+def gate_on(names_by_tag):
+    global _gate
+    _gate = Gate(names_by_tag)
+    return _gate
+
+
+def gate_off():
+    global _gate
+    g, _gate = _gate, None
+    if g is not None:
+        g.open_all()
+
+
 def point(name, **fields):
     emit(name, **fields)
+    g = _gate
+    if g is not None and not g.open:
+        tag = thread_tag()
+        if name in g.names_by_tag.get(tag, ()):
+            g.arrive(tag, name, fields)
+            return None
     p = _parks.get(name)
     if p is not None and p["left"] > 0:
         with _lock:
